@@ -1,7 +1,12 @@
 """Sidecar contracts for /repo/ural/quote.py (C14, C01 extras): what may be appended as a DECODED byte in _unquote_impl."""
+SQ_PIECES = "uf('re_split', 'Seq[Str]', QUOTED_SPLIT_RE, old(string))"
+SQ_ELEMS = ("forall('m', implies(0 <= m and m < len(result), result[m] == ite(uf('re_match', 'Opt[Obj]', QUOTED_RE, g_P[m]) is not None, g_P[m], "
+            "uf('quote', 'Str', g_P[m]))), result[m])")
+
 MODULE = {
-    "file": "ural/quote.py", "auto": True,
-    "consts": {"HEX_TO_BYTE": ("Opaque", "Dict[Str,Str]"), "HEX_BYTES": ("Opaque", "Str")},
+    "file": "ural/quote.py", "auto": True, "bound": {"m": "Int"},
+    "consts": {"HEX_TO_BYTE": ("Opaque", "Dict[Str,Str]"), "HEX_BYTES": ("Opaque", "Str"), "QUOTED_SPLIT_RE": ("Opaque", "Obj"), "QUOTED_RE": ("Opaque", "Obj"),
+               "LOWERCASE_QUOTED_RE": ("Opaque", "Obj"), "upper_match": ("Opaque", "Obj")},
     "functions": {
         "_unquote_impl": {
             "types": {"string": "Str", "only_printable": "Bool", "unsafe": "Opt[Str]", "escape_dangling": "Bool", "bits": "Seq[Str]", "res": "Str",
@@ -19,7 +24,31 @@ MODULE = {
                 "not (some(b) in HEX_BYTES and (res[-1:] == b'%' or (res[-2:-1] == b'%' and res[-1:] in HEX_BYTES)))",
             ]},
         },
+        "safely_quote_iter": {
+            # piece by piece, in order: a well-formed escape is kept as written, everything else goes through quote (nothing is escaped twice, nothing skipped)
+            "types": {"string": "Str", "piece": "Str", "g_i": "Int", "g_P": "Seq[Str]"},
+            "yields": "Str", "returns": "Seq[Str]",
+            "loops": {1: {"index": "g_i", "seq": "g_P", "invariant": ["len(g_yielded) == g_i", SQ_ELEMS.replace("result", "g_yielded")]}},
+            "ensures": ["len(result) == len(%s)" % SQ_PIECES, SQ_ELEMS.replace("g_P", SQ_PIECES)],
+            "assumed_ensures": ["result == uf('safely_quote_iter', 'Seq[Str]', old(string))"],
+        },
+        "safely_quote": {
+            "types": {"string": "Str"}, "returns": "Str",
+            "ensures": ["result == ''.join(uf('safely_quote_iter', 'Seq[Str]', string))"],
+        },
+        "upper_quoted": {
+            "types": {"string": "Str"}, "returns": "Str",
+            # one substitution pass of the lower-case-escape pattern by upper_match: nothing outside the matches changes
+            "ensures": ["result == uf('re_sub_fn', 'Str', LOWERCASE_QUOTED_RE, upper_match, string)"],
+        },
         "upper_match": {"types": {"match": "Obj"}, "returns": "Str", "ensures": [], "raises": {"AttributeError": None}},
     },
-    "library": {"Obj.group": {"params": ["n"], "receiver": "m", "types": {"m": "Obj", "n": "Int"}, "returns": "Opt[Str]", "ensures": []}},
+    "library": {"Obj.split": {"params": ["string"], "receiver": "pattern", "types": {"pattern": "Obj", "string": "Str"}, "returns": "Seq[Str]",
+                              "ensures": ["result == uf('re_split', 'Seq[Str]', pattern, string)"]},
+                "Obj.match": {"params": ["string"], "receiver": "pattern", "types": {"pattern": "Obj", "string": "Str"}, "returns": "Opt[Obj]",
+                              "result_meta": {"always_truthy": True}, "ensures": ["result == uf('re_match', 'Opt[Obj]', pattern, string)"]},
+                "Obj.sub": {"params": ["repl", "string"], "receiver": "pattern", "types": {"pattern": "Obj", "repl": "Obj", "string": "Str"}, "returns": "Str",
+                            "ensures": ["result == uf('re_sub_fn', 'Str', pattern, repl, string)"]},
+                "quote": {"params": ["string"], "types": {"string": "Str"}, "returns": "Str", "ensures": ["result == uf('quote', 'Str', string)"]},
+                "Obj.group": {"params": ["n"], "receiver": "m", "types": {"m": "Obj", "n": "Int"}, "returns": "Opt[Str]", "ensures": []}},
 }
